@@ -62,6 +62,10 @@ def generate(src):
     def h_SendTaskError(ex, st, e, recv, args, kw, k, K): return k(st, new_exc(st, 'SendTaskError'))
     def h_AsyncTaskiqTask(ex, st, e, recv, args, kw, k, K): return k(st, fresh('task_handle'))
     def h_for(ex, s, st, k, K):
+        # the loop contract below is the contract of a walk over the broker's middleware list itself; any other iterable (a helper, a memo, a filtered copy)
+        # has no contract here: UNDECIDED, the bounded send-side histories decide
+        if ast.unparse(s.iter) not in ('self.broker.middlewares', 'list(self.broker.middlewares)', 'tuple(self.broker.middlewares)') or not (isinstance(s.target, ast.Name) and s.target.id == 'middleware') or s.orelse:
+            raise Unsupported("loop over " + ast.unparse(s.iter) + " (target " + ast.unparse(s.target) + "): only a walk over self.broker.middlewares has a contract")
         kind = PRE if 'pre_send' in ast.unparse(s) else POST
         def inv(sx, ix): return ForAll([j], sx.ghost['fired'][kind][j] == And(0 <= j, j < ix, over(kind, j)))
         oblige(st, "kiq/loop/inv-entry  [C10]", inv(st, IntVal(0)))
